@@ -18,7 +18,7 @@ def canon(x):
 
 
 def filled_case(case, fill):
-    c = copy.deepcopy({"header": case["header"], "body": case["body"]})
+    c = copy.deepcopy({"header": case["header"], "body": case["body"], "masked_input": case.get("masked_input")})
     b = c["body"]
     D = b["dims"]
     k = 0
@@ -90,6 +90,12 @@ def apply(pose, op, be):
     elif k == "slice_step": pose = Pose(pose.header, body.slice_step(op["by"]))
     elif k == "zero_filled": pose = Pose(pose.header, body.zero_filled())
     elif k == "copy": pose = pose.copy()
+    elif k == "rejoin":
+        # the body's coordinates re-assembled with numpy.ma.concatenate and assigned back — what `utils.generic.normalize_hands_3d` does with its normalised hands
+        # (and what user code joining clips does): the same values and mask, but an array that did not go through the constructor
+        d = body.data
+        n = d.shape[2] // 2
+        body.data = ma.concatenate([d[:, :, :n], d[:, :, n:]], axis=2)
     elif k == "matmul": pose = Pose(pose.header, body.matmul(np.array(op["m"], dtype=np.float32)))
     elif k == "flatten":
         fl = body.flatten()
